@@ -178,6 +178,13 @@ func factorisations(n int, maxRank int) [][]int {
 }
 
 func genC13(tier string, r *rng, emit func(string)) {
+	// found by the proof of history_refines (RefineProofs.v), not by the generators: Reshape of a
+	// slice along the leading axis of a lazily transposed tensor (its contiguity flag is unsound: F5)
+	for _, p := range []string{"new:rm:2,3:1;T:0:_;slice:0:0.2.1;reshape:1:4", "new:rm:3,3:1;T:0:1,0;slice:0:0.2.1;reshape:1:6",
+		"new:rm:2,3,2:1;T:0:2,1,0;slice:0:0.2.1;reshape:1:12", "new:rm:3,4:1;T:0:1,0;slice:0:1.3.1;reshape:1:2,3"} {
+		emit("prog f64 " + p)
+		emit("prog i " + p)
+	}
 	thorough := tier == "thorough"
 	// (0) the Concat / Repeat shape calculators against the executed operations: every axis in
 	//     [-1, rank+1], fitting and misfitting partners, uniform / per-element / wrong-length counts
